@@ -1,4 +1,5 @@
 import RxModel.Lemmas.GroupBy
+import RxModel.Lemmas.GroupByOuter
 /-
   C20 — group_by sends every item to exactly one group, in order.
 
@@ -11,6 +12,12 @@ import RxModel.Lemmas.GroupBy
   subscribes to group `k` while it is announced (the property's setting is
   `attach = fun _ => true`), `ord` is the order in which `HashMap::drain` hands
   out the groups (any permutation).
+
+  `C20_terminal_outer`, `C20_outer_group_terminal`: `group_by(..)` followed by ANY operators on
+  the stream of groups (`take n` in the suite), also when they have completed that stream long
+  before the source terminates — every group subscriber still hears the source's terminal
+  (since `fix: Subject::error/complete hand the terminal to every subscriber`; the last section
+  records what the code did before).
 -/
 namespace Rx
 open GroupBy
@@ -142,6 +149,58 @@ theorem C20_world (key : Val → Val) (ord : List (Val × Subj) → List (Val ×
       St.runStream key (fun k => !skip.contains k) ord xs (some t) :=
   world_stream key ord skip xs t ht
 
+/-! ### operators on the stream of groups (`group_by(..).take(n)` …) -/
+
+/-- The terminal step, for EVERY chain of operators on the outer stream and every state of it —
+    in particular a `take n` that has completed the stream of groups already —, every state `st`
+    of the GroupByObserver and every drain order: every live subscriber of every group `k` hears
+    the source terminal exactly once (`total k` = the live subscribers registered under `k`), the
+    outer stream gets what its operators make of the terminal, and the source is retired. -/
+theorem C20_terminal_outer (key : Val → Val) (ord : List (Val × Subj) → List (Val × Subj))
+    (hord : ∀ l, (ord l).Perm l) (w : GroupBy.World) (st : St) (t : Notif) (ht : t.isTerm = true)
+    (hd : w.srcDone = false) (hs : w.slot = some st) (k : Val) :
+    grpLog k (w.step key ord (.emit t)).2 = List.replicate (total k st.subjects) t ∧
+    outerLog (w.step key ord (.emit t)).2 = (runChain w.outer [t]).2 ∧
+    (w.step key ord (.emit t)).1.srcDone = true ∧ (w.step key ord (.emit t)).1.slot = none :=
+  step_term_outer key ord hord w st t ht hd hs k
+
+/-- Whole histories of the suite world with ANY operators `outer` on the stream of groups and any
+    set of groups the outer probe does not subscribe to: items `xs`, the source terminal `t`, then
+    anything (`post`: further items and terminals through cloned handles, unsubscriptions).  A
+    group subscriber that has received something during the items hears `t` exactly once, right
+    after its last item, and nothing afterwards — whether or not `take n` had completed the outer
+    stream before. -/
+theorem C20_outer_group_terminal (key : Val → Val) (ord : List (Val × Subj) → List (Val × Subj))
+    (hord : ∀ l, (ord l).Perm l) (outer : List St1) (skip : List Val) (xs : List Val) (t : Notif)
+    (ht : t.isTerm = true) (post : List GroupBy.Ev) (k : Val)
+    (hd : grpLog k (GroupBy.World.run key ord (GroupBy.World.init outer skip)
+      (xs.map fun v => Ev.emit (.next v))).2 ≠ []) :
+    grpLog k (GroupBy.World.run key ord (GroupBy.World.init outer skip)
+        (xs.map (fun v => Ev.emit (.next v)) ++ Ev.emit t :: post)).2 =
+      grpLog k (GroupBy.World.run key ord (GroupBy.World.init outer skip)
+        (xs.map fun v => Ev.emit (.next v))).2 ++ [t] := by
+  obtain ⟨h1, st', h2, h3, h4⟩ := world_items_live key ord k xs (GroupBy.World.init outer skip) rfl
+    St.init rfl
+  have hone : total k st'.subjects = 1 :=
+    Nat.le_antisymm (h4 GI_init k) (h3 (Or.inr hd))
+  obtain ⟨g1, _, _, g4⟩ := step_term_outer key ord hord _ st' t ht h1 h2 k
+  rw [GroupBy.World.run_append]
+  simp only [GroupBy.World.run, grpLog_append, g1, hone, run_dead key ord post _ g4, grpLog,
+    List.append_nil, List.replicate_one]
+
+/-- … and for EVERY history (group unsubscriptions, source unsubscription, events after the
+    terminal included) and every `outer` the log of every group is well formed: items, at most
+    one terminal, then nothing — the terminal is never delivered twice. -/
+theorem C20_outer_group_grammar (key : Val → Val) (ord : List (Val × Subj) → List (Val × Subj))
+    (hord : ∀ l, (ord l).Perm l) (outer : List St1) (skip : List Val) (evs : List GroupBy.Ev)
+    (k : Val) :
+    WF (grpLog k (GroupBy.World.run key ord (GroupBy.World.init outer skip) evs).2) :=
+  world_grp_wf key ord hord k evs _ (by
+    intro st h
+    simp only [GroupBy.World.init, Option.some.injEq] at h
+    subst h
+    exact GI_init)
+
 /-! Non-vacuity: concrete runs of the machine. -/
 example : (St.init.run (fun v => match v with | .int i => .int (i.emod 2) | v => v)
       (fun _ => true) [.int 1, .int 2, .int 3]).2 =
@@ -154,5 +213,24 @@ example : St.runStream (fun v => v) (fun _ => true) List.reverse [.int 1, .int 2
      .grp (.int 2) .complete, .grp (.int 1) .complete, .outer .complete] := by decide
 example : ∀ l : List (Val × Subj), (List.reverse l).Perm l := fun l => List.reverse_perm l
 example : dedup [.int 1, .int 0, .int 1, .int 2, .int 0] = [.int 1, .int 0, .int 2] := by decide
+-- `group_by(id).take(1)`: group 1 is announced and subscribed, `take` completes the outer stream,
+-- group 2 is announced to nobody; the source goes on and completes: group 1 hears it
+example : (GroupBy.World.run (fun v => v) id (GroupBy.World.init [.take 1 0 true] [])
+      [.emit (.next (.int 1)), .emit (.next (.int 2)), .emit (.next (.int 1)), .emit .complete]).2 =
+    [.outer (.next (.int 1)), .outer .complete, .grp (.int 1) (.next (.int 1)),
+     .grp (.int 1) (.next (.int 1)), .grp (.int 1) .complete] := by decide
+example : chainFinished (GroupBy.World.run (fun v => v) id (GroupBy.World.init [.take 1 0 true] [])
+      [.emit (.next (.int 1))]).1.outer = true := by decide
+
+/-! The code BEFORE `fix: Subject::error/complete hand the terminal to every subscriber`
+    (`World.termBefore`): once `take 1` had completed the outer stream, `GroupByObserver::
+    is_finished()` (= the outer observer's) was true, the source subject filtered the observer out
+    of its terminal fan-out and the announced group, which had kept receiving items, never heard
+    the terminal.  The terminal step of both versions from the same state: -/
+example :
+    let w := (GroupBy.World.run (fun v => v) id (GroupBy.World.init [.take 1 0 true] [])
+      [.emit (.next (.int 1)), .emit (.next (.int 1))]).1
+    (w.termBefore id .complete).2 = [] ∧
+      (w.step (fun v => v) id (.emit .complete)).2 = [.grp (.int 1) .complete] := by decide
 
 end Rx
